@@ -169,6 +169,9 @@ def _exclusive(p1, p2):
     return False
 
 
+from engine.units import ARRAY_OR_SEQUENCE_PARAMS  # noqa: E402
+
+
 def source_params(expr, fn: FuncInfo, local_defs: dict, seen=frozenset(), before=None) -> set:
     """the set of parameters (or names unpacked from the vararg) from which the
     *data* of ``expr`` derives through identity / np.asarray / comprehension of
@@ -211,6 +214,19 @@ def source_params(expr, fn: FuncInfo, local_defs: dict, seen=frozenset(), before
             return source_params(e.func.value, fn, local_defs, seen, before)
         if f in PASS_THROUGH_FUNCS and len(e.args) > PASS_THROUGH_FUNCS[f]:
             return source_params(e.args[PASS_THROUGH_FUNCS[f]], fn, local_defs, seen, before)
+        if f in ("list", "tuple") and len(e.args) == 1 and not e.keywords:
+            a = e.args[0]
+            # list(p.T): an (N, D) array split into its D columns - the sequence form NumPy documents as equivalent,
+            # accepted only for the parameters of ARRAY_OR_SEQUENCE_PARAMS
+            if isinstance(a, ast.Attribute) and a.attr == "T" and isinstance(a.value, ast.Name) and a.value.id in ARRAY_OR_SEQUENCE_PARAMS:
+                return source_params(a.value, fn, local_defs, seen, before)
+            if not isinstance(a, ast.Attribute):
+                return source_params(a, fn, local_defs, seen, before)
+        return {"?"}
+    if isinstance(e, (ast.List, ast.Tuple)) and e.elts and not any(isinstance(x, ast.Starred) for x in e.elts):
+        # [p]: the same data presented as a one-element sequence (only for array-or-sequence parameters)
+        if len(e.elts) == 1 and isinstance(e.elts[0], ast.Name) and e.elts[0].id in ARRAY_OR_SEQUENCE_PARAMS:
+            return source_params(e.elts[0], fn, local_defs, seen, before)
         return {"?"}
     if isinstance(e, (ast.ListComp, ast.GeneratorExp)) and len(e.generators) == 1:
         g = e.generators[0]
